@@ -55,9 +55,6 @@ Sem/ScnSwitch.vos Sem/ScnSwitch.vok Sem/ScnSwitch.required_vos: Sem/ScnSwitch.v 
 Thm/C07/Switch.vo Thm/C07/Switch.glob Thm/C07/Switch.v.beautified Thm/C07/Switch.required_vo: Thm/C07/Switch.v Core/Base.vo Core/Prog.vo Sem/Interp.vo Sem/InterpFacts.vo Gen/State.vo Sem/ScnSwitch.vo
 Thm/C07/Switch.vio: Thm/C07/Switch.v Core/Base.vio Core/Prog.vio Sem/Interp.vio Sem/InterpFacts.vio Gen/State.vio Sem/ScnSwitch.vio
 Thm/C07/Switch.vos Thm/C07/Switch.vok Thm/C07/Switch.required_vos: Thm/C07/Switch.v Core/Base.vos Core/Prog.vos Sem/Interp.vos Sem/InterpFacts.vos Gen/State.vos Sem/ScnSwitch.vos
-Props/C07.vo Props/C07.glob Props/C07.v.beautified Props/C07.required_vo: Props/C07.v Core/Base.vo Core/Prog.vo Sem/Interp.vo Sem/InterpFacts.vo Gen/State.vo Sem/ScnSwitch.vo Thm/C07/Switch.vo
-Props/C07.vio: Props/C07.v Core/Base.vio Core/Prog.vio Sem/Interp.vio Sem/InterpFacts.vio Gen/State.vio Sem/ScnSwitch.vio Thm/C07/Switch.vio
-Props/C07.vos Props/C07.vok Props/C07.required_vos: Props/C07.v Core/Base.vos Core/Prog.vos Sem/Interp.vos Sem/InterpFacts.vos Gen/State.vos Sem/ScnSwitch.vos Thm/C07/Switch.vos
 Thm/Common/Loops.vo Thm/Common/Loops.glob Thm/Common/Loops.v.beautified Thm/Common/Loops.required_vo: Thm/Common/Loops.v Core/Base.vo Core/Prog.vo Py/Sig.vo Sem/Interp.vo Sem/InterpFacts.vo Sem/StmtFacts.vo Sem/Model.vo Gen/Validators.vo
 Thm/Common/Loops.vio: Thm/Common/Loops.v Core/Base.vio Core/Prog.vio Py/Sig.vio Sem/Interp.vio Sem/InterpFacts.vio Sem/StmtFacts.vio Sem/Model.vio Gen/Validators.vio
 Thm/Common/Loops.vos Thm/Common/Loops.vok Thm/Common/Loops.required_vos: Thm/Common/Loops.v Core/Base.vos Core/Prog.vos Py/Sig.vos Sem/Interp.vos Sem/InterpFacts.vos Sem/StmtFacts.vos Sem/Model.vos Gen/Validators.vos
@@ -121,3 +118,6 @@ Thm/C12/DispatchThm.vos Thm/C12/DispatchThm.vok Thm/C12/DispatchThm.required_vos
 Props/C12.vo Props/C12.glob Props/C12.v.beautified Props/C12.required_vo: Props/C12.v Core/Base.vo Core/Prog.vo Py/Sig.vo Sem/Interp.vo Sem/InterpFacts.vo Sem/Model.vo Gen/Dispatch.vo Thm/C12/DispatchThm.vo
 Props/C12.vio: Props/C12.v Core/Base.vio Core/Prog.vio Py/Sig.vio Sem/Interp.vio Sem/InterpFacts.vio Sem/Model.vio Gen/Dispatch.vio Thm/C12/DispatchThm.vio
 Props/C12.vos Props/C12.vok Props/C12.required_vos: Props/C12.v Core/Base.vos Core/Prog.vos Py/Sig.vos Sem/Interp.vos Sem/InterpFacts.vos Sem/Model.vos Gen/Dispatch.vos Thm/C12/DispatchThm.vos
+Props/C07.vo Props/C07.glob Props/C07.v.beautified Props/C07.required_vo: Props/C07.v Core/Base.vo Core/Prog.vo Py/Sig.vo Sem/Interp.vo Sem/InterpFacts.vo Sem/Model.vo Gen/Validators.vo Gen/HasPatcher.vo Gen/Contracts.vo Gen/State.vo Sem/ScnSwitch.vo Thm/C07/Switch.vo Thm/Common/Loops.vo Thm/C01/Gate.vo
+Props/C07.vio: Props/C07.v Core/Base.vio Core/Prog.vio Py/Sig.vio Sem/Interp.vio Sem/InterpFacts.vio Sem/Model.vio Gen/Validators.vio Gen/HasPatcher.vio Gen/Contracts.vio Gen/State.vio Sem/ScnSwitch.vio Thm/C07/Switch.vio Thm/Common/Loops.vio Thm/C01/Gate.vio
+Props/C07.vos Props/C07.vok Props/C07.required_vos: Props/C07.v Core/Base.vos Core/Prog.vos Py/Sig.vos Sem/Interp.vos Sem/InterpFacts.vos Sem/Model.vos Gen/Validators.vos Gen/HasPatcher.vos Gen/Contracts.vos Gen/State.vos Sem/ScnSwitch.vos Thm/C07/Switch.vos Thm/Common/Loops.vos Thm/C01/Gate.vos
